@@ -17,6 +17,9 @@
 (* Variant "noskip" forgets `skip.update(done)`; Variant "rawkey" (seeded change C19-r2m3) keeps   *)
 (* the bookkeeping per RAW value and sanitises only when building the path: colliding values get  *)
 (* separate handles / passes on one path and the later "wb" open destroys the earlier records.    *)
+(* Variant "skipreplace" (seeded change C19-r3m3) REPLACES skip by the values of the last pass:   *)
+(* with more than 2 * max_handles values the third pass re-opens the values of the first one and  *)
+(* the tool never ends (Inv_C19_PassBound, Inv_C19_OpenOnce).                                     *)
 (* (mutation controls: the invariants are not vacuous)                                           *)
 EXTENDS Integers, FiniteSets, Sequences, TLC, Util
 
@@ -58,7 +61,9 @@ Write == /\ Scanning /\ raw # 0 /\ v \notin skip /\ v \notin waiting /\ v \in ha
          /\ out' = [out EXCEPT ![file] = Append(@, i)]
          /\ Advance /\ UNCHANGED <<handles, waiting, opened>>
 EndPass == /\ phase = "scan" /\ i > Len(recs)
-           /\ skip' = IF Variant = "noskip" THEN skip ELSE skip \cup handles
+           /\ skip' = CASE Variant = "noskip" -> skip
+                         [] Variant = "skipreplace" -> handles      \* seeded change C19-r3m3: `skip = done`
+                         [] OTHER -> skip \cup handles
            /\ handles' = {}
            /\ IF waiting = {} THEN phase' = "done" /\ UNCHANGED <<pass, i>>
                               ELSE phase' = "scan" /\ pass' = pass + 1 /\ i' = 1
